@@ -155,31 +155,8 @@ let bump k = Hashtbl.replace stats k (1 + (try Hashtbl.find stats k with Not_fou
 let distinct : (string, unit) Hashtbl.t = Hashtbl.create 1024
 
 
-(* The entry-list view of a type: every set / map inside it read as the plain list of its entries.
-   [collect_rec t v] turns a value of [list_view t] into the value of [t] it denotes (each inner
-   list of entries collected, innermost first). *)
-let rec list_view (t : M.ty) : M.ty =
-  match t with
-  | M.TList a -> M.TList (list_view a)
-  | M.TSet a -> M.TList (list_view a)
-  | M.TMap (k, w) -> M.TList (M.TContainer (false, [list_view k; list_view w]))
-  | M.TOption a -> M.TOption (list_view a)
-  | M.TLegacyOpt a -> M.TLegacyOpt (list_view a)
-  | M.TWrap a -> M.TWrap (list_view a)
-  | M.TContainer (d, fs) -> M.TContainer (d, List.map list_view fs)
-  | M.TUnion ts -> M.TUnion (List.map list_view ts)
-  | M.TTransEnum ts -> M.TTransEnum (List.map list_view ts)
-  | _ -> t
-
-let rec collect_rec (t : M.ty) (v : M.val0) : M.val0 =
-  match t, v with
-  | M.TList a, M.VList es -> M.VList (List.map (collect_rec a) es)
-  | M.TSet a, M.VList es -> M.VList (M.collect_entries false (List.map (collect_rec a) es))
-  | M.TMap (k, w), M.VList es ->
-    M.VList (M.collect_entries true (List.map (collect_rec (M.TContainer (false, [k; w]))) es))
-  | (M.TOption a | M.TLegacyOpt a), M.VSome x -> M.VSome (collect_rec a x)
-  | M.TWrap a, _ -> collect_rec a v
-  | M.TContainer (_, fs), M.VCont vs when List.length fs = List.length vs -> M.VCont (List.map2 collect_rec fs vs)
-  | (M.TUnion ts | M.TTransEnum ts), M.VUnion (i, x) when int_of_nat i < List.length ts ->
-    M.VUnion (i, collect_rec (List.nth ts (int_of_nat i)) x)
-  | _ -> v
+(* The entry-list view of a type and the collection a value of it denotes are the model's own
+   [list_view] / [collect_rec] (ListView.v; ListViewFacts.dec_by_collection proves that decoding a type is
+   decoding its entry-list view and collecting). *)
+let list_view = M.list_view
+let collect_rec = M.collect_rec
